@@ -14,7 +14,8 @@ META = {
     'level': 'model_checking',
     'technique': 'fork-point enumeration by preemption-bounded schedule exploration of the real code under the controlled scheduler; deadlock decided from the scheduler\'s mutex model in the child',
     'text': 'Every schedule with <=1 (quick) / <=2 (thorough) preemptions of {thread 0: fork, child execs; thread 1: K wrapped calls} is executed for each output type, child fork depth 1 and 2 and K in {1,2}: '
-            'the child must reach the real exec (recorder) and exit normally, the parent must not deadlock, its records must be whole and its registry empty at the end.',
+            'the child must reach the real exec (recorder) and exit normally, the parent must not deadlock, its records must be whole and its registry empty at the end.'
+            " Also: children that become multithreaded, three- and four-thread parents, I/O-granular fork points, state-hashed campaigns without preemption bound, glibc's time-zone lock (tzset/localtime_r/strftime) modelled as a mutex held across a scheduling point, and sequential fork histories in which the application's own atfork child handler makes an exec call.",
     'note': 'The fork is taken at synchronisation points of the other thread (every lock/unlock/once of its call), which includes every window in which it holds the library mutex. '
             'Function-entry granularity is used in one campaign to place the fork inside lock-free stretches too.',
 }
